@@ -6,7 +6,7 @@ Round-robin : line-ups of 1-6 sampler objects (six distinct class names, repeate
               lifetime batch i is produced by sampler i mod n and contributes that sampler's batch_size rows.
 RL          : sampler sets with and without Halton, every scripted action sequence of length <= 3, eps-greedy agents,
               1-2 sessions, loss scripts incl. a best loss of exactly 0: first batch by Halton (member, else appended
-              last), later batches by samplers[action], in the default schedule and all schedules with <= 1 preemption.
+              last), later batches by samplers[action], in every interleaving (modulo commutation of independent steps).
 Constructor : all four samplers/scheduler presence combinations.
 """
 from __future__ import annotations
@@ -93,7 +93,7 @@ def rl_cell(cell):
     res = {"evaluations": 0, "nontrivial": 0, "states": 0, "transitions": 0, "traces": 0, "stats": {}, "outcomes": set(), "violations": [], "samples": []}
     cfg = cell["cfg"]
     outs = set()
-    for prefix, ctl, obs in ex.explore(lambda p: rh.run_protocol(cfg, p, mode="sync"), bound=cell.get("bound", 1), max_execs=3000):
+    for prefix, ctl, obs in ex.explore_por(lambda p, sl: rh.run_protocol(cfg, p, mode="sync", sleep_at=sl), max_execs=5000):
         res["evaluations"] += 1
         res["traces"] += 1
         res["transitions"] += ctl.n_points
@@ -215,7 +215,7 @@ def main(ctx):
                     cells.append({"kind": "rl", "bound": 1, "cfg": {"shape": shape, "losses": losses, "l0": l0, "agent": agent, "samplers": samplers}})
     ctx.bounds = {"round_robin": f"line-ups of 1..6 objects over {NAMES6} (in order, reversed, repeated class), batch sizes 1..3 by position; histories over c1,c2,restore of depth {depth}",
                   "rl": {"sampler_sets": ["with_halton", "halton_first", "without_halton", "three"], "shapes": shapes, "agents": "all scripted sequences of length <= 3 + eps-greedy eps {0,.5,1} seeds {S,S+1}",
-                         "loss_scripts": ["mixed", "to_zero (best loss becomes exactly 0)", "never with bootstrap loss 0"], "schedules": "all with <= 1 preemption"}, "cells": len(cells)}
+                         "loss_scripts": ["mixed", "to_zero (best loss becomes exactly 0)", "never with bootstrap loss 0"], "schedules": "all interleavings modulo independence (sleep sets)"}, "cells": len(cells)}
     ctx.rule = "every history / every agent script within the bounds; non-trivial = history with a second call or a restore, or any RL execution"
     ctx.assumptions = ["RL + restore is unreachable (RLScheduler is not picklable; C04 known finding)"]
     cells.sort(key=lambda c: 0 if c["kind"] == "rr" else 1)
